@@ -8,6 +8,7 @@ import (
 	"unsafe"
 
 	"github.com/IrineSistiana/mosproxy/internal/pool"
+	"github.com/IrineSistiana/mosproxy/internal/zzverif/sched"
 )
 
 // Buffer-ownership hook (installed into internal/pool via the verif build tag).
@@ -67,6 +68,7 @@ func UninstallOwn() {
 }
 
 func (o *Own) get(size int) pool.Buffer {
+	sched.Point("GetBuf") // buffer operations are scheduling points in E2 runs (no-op elsewhere)
 	if size <= 0 {
 		return []byte{}
 	}
@@ -90,6 +92,7 @@ func (o *Own) violate(s string) {
 }
 
 func (o *Own) release(b pool.Buffer) bool {
+	sched.Point("ReleaseBuf")
 	if b == nil {
 		if !o.race {
 			o.mu.Lock()
